@@ -224,6 +224,64 @@ def runesFrom : Nat → Nat → List (BitVec 8) → List (BitVec 64 × BitVec 32
 
 def runes (s : List (BitVec 8)) : List (BitVec 64 × BitVec 32) := runesFrom s.length 0 s
 
+/-! ### library functions on strings that the translator DEFINES (stage 8; a string is the list of its bytes) -/
+
+/-- `strings.TrimPrefix(s, p)`: `s` without the leading `p` if it starts with `p`, otherwise `s` -/
+def trimPrefix (s p : List (BitVec 8)) : List (BitVec 8) := if p.isPrefixOf s then s.drop p.length else s
+
+example : trimPrefix [109#8, 47#8, 48#8] [109#8, 47#8] = [48#8] := by decide
+example : trimPrefix [109#8] [109#8, 47#8] = [109#8] := by decide
+example : trimPrefix [47#8, 109#8, 47#8] [109#8, 47#8] = [47#8, 109#8, 47#8] := by decide
+example : trimPrefix [109#8, 47#8] [] = [109#8, 47#8] := by decide
+
+/-- `strings.Split(s, sep)` for a separator `sep` that consists of the single byte `b`: the substrings between the
+occurrences of `b`, in order (one more than there are occurrences; `""` ↦ `[""]`, `"a/"` ↦ `["a", ""]`) -/
+def splitByte : List (BitVec 8) → BitVec 8 → List (List (BitVec 8))
+  | [], _ => [[]]
+  | c :: s, b =>
+    if c == b then [] :: splitByte s b
+    else match splitByte s b with
+      | [] => [[c]] -- not reached: the result is never empty
+      | p :: ps => (c :: p) :: ps
+
+example : splitByte [97#8, 47#8, 98#8] 47#8 = [[97#8], [98#8]] := by decide
+example : splitByte [] 47#8 = [[]] := by decide
+example : splitByte [97#8, 47#8] 47#8 = [[97#8], []] := by decide
+example : splitByte [47#8, 47#8, 97#8] 47#8 = [[], [], [97#8]] := by decide
+
+/-- the decimal digits of `n` in front of `acc`, least significant digit produced first; `fuel` = `n + 1` suffices -/
+def decimalFuel : Nat → Nat → List (BitVec 8) → List (BitVec 8)
+  | 0, _, acc => acc
+  | fuel + 1, n, acc =>
+    let acc := BitVec.ofNat 8 (48 + n % 10) :: acc
+    if n / 10 = 0 then acc else decimalFuel fuel (n / 10) acc
+
+/-- what the verb `%d` of package fmt prints for an unsigned integer: the ASCII decimal digits of `n`, most significant
+first, without leading zeros (`"0"` for 0) -/
+def decimal (n : Nat) : List (BitVec 8) := decimalFuel (n + 1) n []
+
+example : decimal 0 = [48#8] := by decide
+example : decimal 7 = [55#8] := by decide
+example : decimal 1203 = [49#8, 50#8, 48#8, 51#8] := by decide
+example : decimal 2147483647 = [50#8, 49#8, 52#8, 55#8, 52#8, 56#8, 51#8, 54#8, 52#8, 55#8] := by decide
+
+/-- the (index, element) pairs of `for i, v := range xs`, the indices counted from `k` -/
+def indexedFrom {α : Type} : Nat → List α → List (BitVec 64 × α)
+  | _, [] => []
+  | k, x :: xs => (BitVec.ofNat 64 k, x) :: indexedFrom (k + 1) xs
+
+/-- the (index, element) pairs of `for i, v := range xs` -/
+def indexed {α : Type} (xs : List α) : List (BitVec 64 × α) := indexedFrom 0 xs
+
+example : indexed [[97#8], ([] : List (BitVec 8))] = [(0#64, [97#8]), (1#64, [])] := by decide
+
+/-- `fmt.Errorf("…%w…", …, err, …)` with `err` a local error variable: always a non-nil error; it wraps what `err` wraps
+(`some name`), and for `err == nil` it is an error that wraps nothing (the name `""`, which is no error variable) -/
+def errWrap (e : Option String) : Option String := some (e.getD "")
+
+example : errWrap (some "ErrX") = some "ErrX" := by decide
+example : errWrap none = some "" := by decide
+
 /-! ### error values with an optional position (functions that return both plain errors and `&T{err, offset}` errors) -/
 
 /-- a plain error (`some name`) as an error with optional position -/
